@@ -49,6 +49,28 @@ def gen_cases(rng, tier):
         c["resp"]["assertions"][0]["decryptable"] = False
         c["tag"] += "/undecryptable"
         yield c
+    # several assertions in one Response (plain and encrypted, in every order): one bad signature in any position must refuse
+    # the whole Response, whatever was verified before it
+    import copy as _copy
+    for opts in OPTS:
+        for layout in (("p", "e"), ("e", "p"), ("e", "e"), ("p", "e", "e"), ("e", "p", "e"), ("e", "e", "p")):
+            for bad_pos in range(len(layout) + 1):
+                for bad in ("corrupted", "untrusted"):
+                    c = cell(opts, "valid", "valid", False, "post")
+                    a0 = c["resp"]["assertions"][0]
+                    asserts = []
+                    for i, kind in enumerate(layout):
+                        a = _copy.deepcopy(a0)
+                        a["id"] = "a-%d" % i
+                        a["encrypted"] = kind == "e"
+                        a["sig"] = bad if i == bad_pos else "valid"
+                        a["subject"]["name_id"] = "user-%d" % i
+                        asserts.append(a)
+                    c["resp"]["assertions"] = asserts
+                    c["tag"] += "/multi:%s/bad@%s/%s" % ("".join(layout), bad_pos if bad_pos < len(layout) else "none", bad)
+                    yield c
+                    if bad_pos == len(layout):
+                        break
     # the table with the signatures made by the SECOND signing key the issuer publishes (key roll-over)
     for opts, rsig, asig, enc in itertools.product(OPTS, SIGS, SIGS, (False, True)):
         if "valid" not in (rsig, asig) and "corrupted" not in (rsig, asig):
